@@ -4,6 +4,7 @@ the sequentialised schedule up to the crash point, the teardown action(s), then 
 
   wiring (all answer `ok`):
     rule discard|drain               exit rule of the writer pumps (default discard = the code)
+    handover off                     the code before the listeners were handed their writer (witness only)
     cons <w> req | cons <w> node <upW> <upR>      who consumes Receive() of writer w
     lis <w> <r> sink <k> | lis <w> <r> node <outW>   who listens on reader r of writer w
     inport <w> <r> …                 next in-port: its per-process readers, in Close order
@@ -19,6 +20,8 @@ the sequentialised schedule up to the crash point, the teardown action(s), then 
     ans <k> n | e <id> | v <id>      sink k answers the oldest request it holds, then the backward
                                      loops run → t | f | none{ | w<w>:<resp>}
     pwrite <w> <v> / pans <k> <a>    the same two steps after the crash point → n<cnt> / t | f | none
+    wwrite <w> <v> / relay           the requester's write alone → n<cnt>; then the node loops → u
+    bwdlate <w>                      the backward listener of the node consuming w makes its own Open only now → u
     recv <w>                         the requester's `<-Receive()` → <resp> | closed | blocked | notowed
     down reader <w> <r> | writer <w> | inport <i> | outport <o> | node <n> | exit <p>   → u
     settle                           a fair completion in which every consumer is parked when its packet is
@@ -228,6 +231,12 @@ def showSettle (st : St) : String :=
 
 def stepLine (st : St) (toks : List String) : St × String :=
   match toks with
+  | ["handover", "off"] => let t := st.topo; ({ st with topo := { t with handOver := false } }, "ok")
+  | ["bwdlate", w] =>
+    -- the backward listener of the node consuming writer w makes its own Open only now
+    match w.toNat? with
+    | some w => ({ st with sys := (step st.rule st.topo st.sys (.bwdLate w)).1 }, "u")
+    | none => (st, "bad-op")
   | ["rule", "drain"] => ({ st with rule := .drain }, "ok")
   | ["rule", "discard"] => ({ st with rule := .discard }, "ok")
   | ["cons", w, "req"] =>
@@ -312,6 +321,20 @@ def stepLine (st : St) (toks : List String) : St × String :=
         (st2, ret ++ newPushed st2 before)
       | [] => (st, "none")
     | _, _ => (st, "bad-op")
+  | ["wwrite", w, v] =>
+    -- the requester's write alone: the node loops do not run yet (the request rests in the reader)
+    match w.toNat?, v.toNat? with
+    | some w, some v =>
+      let st := bump st w
+      let p := step st.rule st.topo st.sys (.prim w (.w (.write v)))
+      ({ st with sys := p.1 }, match p.2 with
+        | .c (.w o) => (match o.ret with | .cnt n => s!"n{n}" | _ => "?")
+        | _ => "?")
+    | _, _ => (st, "bad-op")
+  | ["relay"] =>
+    -- the node loops run until nothing moves
+    let (st2, _) := relayAll st 64
+    (st2, "u")
   | ["pwrite", w, v] =>
     -- a write after the crash point: same step, only the count is compared
     match w.toNat?, v.toNat? with
